@@ -310,7 +310,11 @@ def run(ctx):
 
     MIN = flow.must_facts(mt, mev)
     MLEN = ("len", ("param", mt.path, 2))
+    # pushes of an offset: a usize derived from the u32 read from the wire (other usize vectors, e.g. a list of value boundaries built
+    # from 0, the offsets and the end, are not offsets read from the input)
     offp = [(bb, mev.call_args(bb)) for bb, t in mt.calls() if callee_name(t["fn"].get("path", "")) == "push" and "usize" in t["arg_tys"][1]]
+    offp = [(bb, a) for (bb, a) in offp if values.contains(W.expand(a[1]), lambda x: is_call(x) and callee_name(x[1]) == "read_u32") or
+            values.contains(a[1], lambda x: is_call(x) and callee_name(x[1]) == "read_u32")]
     for bb, a in offp:
         off = uncast(a[1])
         grid = [{"off": o, "len": l, "n": n} for n in (2, 3, 18) for l in (8 * n, 8 * n + 4, 8 * n + 8, 1024)
